@@ -5,7 +5,9 @@ CONSTANTS
   Margin <- C_Margin
   StartOffset <- C_StartOffset
   PostKind <- C_PostKind
-  BroadcastSeconds <- C_BroadcastSeconds
+  BroadcastTimeout <- C_BroadcastTimeout
+  CheckDelay <- C_CheckDelay
+  BroadcastBounded = TRUE
   ClaimEndMargin <- C_ClaimEndMargin
   AttemptsLimit <- C_AttemptsLimit
   AnnounceDelay <- C_AnnounceDelay
@@ -18,4 +20,4 @@ CONSTANTS
   MaxMessages = 3
   LoopBoundToCaller = TRUE
   Starts <- BatchStarts
-INVARIANTS TypeOK NoUnderflow SigningStartsAfterStart SigningEndsBeforeMargin LoopFits NoAnnouncementAfterDeadline SignReturnsByDeadline AttemptWindow PostEndsBeforeExpiry
+INVARIANTS TypeOK NoUnderflow SigningStartsAfterStart SigningEndsBeforeMargin LoopFits NoAnnouncementAfterDeadline SignReturnsByDeadline AttemptWindow PostEndsBeforeExpiry BroadcastLoopBounded
